@@ -389,6 +389,10 @@ pub fn run(ctx: &'static Ctx) -> i32 {
     // (d) directed families beyond the length bound (long elements, every byte value)
     let mut directed = crate::props::c04::long_elements();
     directed.extend(crate::props::c04::byte_substitutions());
+    for lit in crate::props::c07::literal_grammar(false) {
+        // every bound / half / exponent literal as a parameter (overflow checks differ by profile)
+        directed.push(format!("A {lit}").into_bytes());
+    }
     for l in [13usize, 255, 256, 257, 300, 65536] {
         // long list expressions and long channel specs
         let body: Vec<u8> = (0..l).map(|i| if i % 2 == 0 { b'1' } else { b',' }).collect();
@@ -446,7 +450,7 @@ pub fn run(ctx: &'static Ctx) -> i32 {
     c.insert("evaluations_this_profile".into(), json!(tot.runs));
     c.insert("other_profile_run".into(), other_profile);
     c.insert("distinct_nontrivial".into(), json!(tot.errs + tot.handler_calls.min(tot.ok)));
-    c.insert("rule".into(), json!(format!("(a) every string of length <= {n} over {} class-representative bytes ({nstr} strings) x 3 tree shapes (single leaf; defaults + suffixed siblings + anonymous default leaf + common command; depth-3 chain) x 5 handler plans (pull nothing; pull all and apply all {} typed conversions incl. list iteration, spec walks and tuple conversions; one required; two optional; required+optional with header/float/block response) = {a_runs} runs, plus the bare Tokenizer on every string; (b) {} prefixes x every continuation of length <= {m} over the same full alphabet (so that header bytes such as `*` `:` `?` also appear after data separators) x 2 plans = {b_runs} runs; (c) every string of length <= {k} over `12!,:-+.E'\" a` as channel-list (`@w`) and numeric-list body, iterated to the first error with spec walks and conversions = {c_runs} cases; (d) directed inputs beyond the length bound (elements of 32 lengths from 11 to 65549 bytes, every byte value 0..255 at every position of 8 well-formed messages, list expressions / channel specs / unit chains / header chains of up to 65536 items) x 3 trees x 5 plans = {d_runs} runs. Oracle: no panic (caught per case), no hang (watchdog), no -300 'Internal parser error', iterators stop within len+2 steps; process death is reported by ./check from the per-chunk journal. Distinct non-trivial = runs ending in an error + successful runs that entered a handler", SIGMA_LEX.len(), N_CONVERSIONS, PREFIXES.len())));
+    c.insert("rule".into(), json!(format!("(a) every string of length <= {n} over {} class-representative bytes ({nstr} strings) x 3 tree shapes (single leaf; defaults + suffixed siblings + anonymous default leaf + common command; depth-3 chain) x 5 handler plans (pull nothing; pull all and apply all {} typed conversions incl. list iteration, spec walks and tuple conversions; one required; two optional; required+optional with header/float/block response) = {a_runs} runs, plus the bare Tokenizer on every string; (b) {} prefixes x every continuation of length <= {m} over the same full alphabet (so that header bytes such as `*` `:` `?` also appear after data separators) x 2 plans = {b_runs} runs; (c) every string of length <= {k} over `12!,:-+.E'\" a` as channel-list (`@w`) and numeric-list body, iterated to the first error with spec walks and conversions = {c_runs} cases; (d) directed inputs beyond the length bound (every literal of the C07 grammar as a parameter, elements of 32 lengths from 11 to 65549 bytes, every byte value 0..255 at every position of 8 well-formed messages, list expressions / channel specs / unit chains / header chains of up to 65536 items) x 3 trees x 5 plans = {d_runs} runs. Oracle: no panic (caught per case), no hang (watchdog), no -300 'Internal parser error', iterators stop within len+2 steps; process death is reported by ./check from the per-chunk journal. Distinct non-trivial = runs ending in an error + successful runs that entered a handler", SIGMA_LEX.len(), N_CONVERSIONS, PREFIXES.len())));
     c.insert("exhaustive".into(), json!(true));
     c.insert("runs_ok".into(), json!(tot.ok));
     c.insert("runs_err".into(), json!(tot.errs));
